@@ -20,7 +20,8 @@
   HYPOTHESES and their status:
   * `ir_scalarMixedMult_eq_model`: callees (NewSM2Point, Double, Add, Set, Negate, NewFromXY of CTIRProgFn) as `Computes`
     hypotheses for an abstract group `Ops`; DISCHARGED in `ir_scalarMixedMult_eq_model_closed` from the point layer
-    (Props/C15IR) through the renaming, leaving `FiatPrims` (a theorem: Props/C15IR `fiatPrims4`), the facts on the encoding
+    (Props/C15IR) through the renaming, and CLOSED without any hypothesis in `ir_scalarMixedMult_fiat_proto` /
+    `ir_scalarMixedMult_pointCtxFiat_proto` (below); the intermediate `_closed` forms leave `FiatPrims` (a theorem: Props/C15IR `fiatPrims4`), the facts on the encoding
     (`EncOk`: `encOk4`) and on the globals (tables: `globals_first/second` by `rfl`; sm2B).
   * `hT` / `XYUsed … → Out4 x ∧ Out4 y`: the table entries are four 64-bit limbs (true of the generated tables).
   No model/IR disagreement: wherever the model uses a default, a bounds-checked index follows and panics exactly where the IR is
@@ -29,6 +30,7 @@
 -/
 import SMGo.Proofs.CTIRRefineRenameProto
 import SMGo.Proofs.CTIRRefineWrap
+import SMGo.Proofs.CTIRRefineEntryProto2
 
 namespace SMGo.Props.C14IRMixed
 open SMGo SMGo.Proofs SMGo.Model.CTIR SMGo.Gen.CTIRProgFn SMGo.Proofs.CTIRRefineUtils SMGo.Proofs.CTIRRefineCurve
@@ -360,6 +362,42 @@ theorem ir_ScalarBaseMult_eq_model {α β : Type} (M : Model.SM2.Ctx α β) (enc
     | .panic => CalleeFails prog G X f_internal_ScalarBaseMult [bytesV k] :=
   SMGo.Proofs.CTIRRefineWrap.ir_ScalarBaseMult_eq_model M encP k hG7 hG8 h
 
+end SMGo.Props.C14IRMixed
+
+namespace SMGo.Props.C14IRMixed
+open SMGo SMGo.Proofs SMGo.Model.CTIR SMGo.Gen.CTIRProg SMGo.Proofs.CTIRRefineUtils SMGo.Proofs.CTIRRefineField
+open SMGo.Proofs.CTIRRefineClosed SMGo.Proofs.CTIRRefineEntry SMGo.Proofs.CTIRRefineEntryProto SMGo.Proofs.CTIRRefineEntryProto2
+open SMGo.Model.SM2 (pointCtxFiat ctxFiat)
+
+/-! ## CLOSED: ScalarMixedMult_Unsafe of the extended program (function 100) on the generated globals, for the generated
+   Fiat code: no hypothesis (SMGo/Proofs/CTIRRefineEntryProto2.lean).  This is the closed form of the theorems above -/
+
+/-- against the model over well-formed limbs (`pointCtx4`), any oracle -/
+theorem ir_scalarMixedMult_fiat_proto {O : Oracle} (g : Bytes) (Pt : Model.Point.Pt Limbs) (k : Bytes) :
+    match Model.Curve.scalarMixedMult (Model.Curve.pointOps pointCtx4) g Pt k Gen.SM2Tables.sm2Precomputed_6_3_14
+        Gen.SM2Tables.sm2Precomputed_6_3_14_Remainder with
+    | .ok r => ∀ f, fuelMm ≤ f →
+        runV PX GP O f 100 [bytesV g, CTIRRefinePointB.ptV encL Pt, bytesV k] = .ret [CTIRRefinePointB.ptV encL r, .int 0]
+    | .panic => (∃ F, ∀ f, F ≤ f → runV PX GP O f 100 [bytesV g, CTIRRefinePointB.ptV encL Pt, bytesV k] = .panic) ∨
+        (∀ f, runV PX GP O f 100 [bytesV g, CTIRRefinePointB.ptV encL Pt, bytesV k] = .stuck)
+    | .err => False :=
+  SMGo.Proofs.CTIRRefineEntryProto2.ir_scalarMixedMult_fiat_proto g Pt k
+
+theorem fuelMm_eq : fuelMm = 49893848 :=
+  SMGo.Proofs.CTIRRefineEntryProto2.fuelMm_eq 
+
+/-- against the audited model instance `Model.SM2.pointCtxFiat` -/
+theorem ir_scalarMixedMult_pointCtxFiat_proto {O : Oracle} (g : Bytes) (Pt : Model.Point.Pt (List Nat)) (hPt : Out4Pt Pt)
+    (k : Bytes) :
+    match Model.Curve.scalarMixedMult (Model.Curve.pointOps pointCtxFiat) g Pt k Gen.SM2Tables.sm2Precomputed_6_3_14
+        Gen.SM2Tables.sm2Precomputed_6_3_14_Remainder with
+    | .ok r => Out4Pt r ∧ ∀ f, fuelMm ≤ f →
+        runV PX GP O f 100 [bytesV g, CTIRRefinePointB.ptV id Pt, bytesV k] = .ret [CTIRRefinePointB.ptV id r, .int 0]
+    | .panic => (∃ F, ∀ f, F ≤ f → runV PX GP O f 100 [bytesV g, CTIRRefinePointB.ptV id Pt, bytesV k] = .panic) ∨
+        (∀ f, runV PX GP O f 100 [bytesV g, CTIRRefinePointB.ptV id Pt, bytesV k] = .stuck)
+    | .err => False :=
+  SMGo.Proofs.CTIRRefineEntryProto2.ir_scalarMixedMult_pointCtxFiat_proto g Pt hPt k
+
 #print axioms ir_scalarMixedMult_eq_model
 #print axioms ir_scalarMixedMult_eq_model_globals
 #print axioms scalarMixedMult_ne_err
@@ -385,5 +423,8 @@ theorem ir_ScalarBaseMult_eq_model {α β : Type} (M : Model.SM2.Ctx α β) (enc
 #print axioms ScalarBaseMult_computes
 #print axioms ScalarBaseMult_fails
 #print axioms ir_ScalarBaseMult_eq_model
+#print axioms ir_scalarMixedMult_fiat_proto
+#print axioms fuelMm_eq
+#print axioms ir_scalarMixedMult_pointCtxFiat_proto
 
 end SMGo.Props.C14IRMixed
